@@ -44,9 +44,26 @@ def st_case(tier):
         register = draw(st.booleans())
         progs = []
         nops = draw(st.integers(3, 10 if tier == "quick" else 20))
+        # masters of different address widths on one interconnect (the first one narrower): it only addresses what it can reach
+        narrow = 16 if (kind in ("shared", "crossbar") and M >= 2 and draw(st.integers(0, 3)) == 0) else None
+        reach = (1 << (narrow + 2)) if narrow else None
         for m in range(M):
             ops = []
             for _ in range(nops):
+                if narrow and m == 0:
+                    low = [j for j in range(S) if wins[j][0] + wins[j][1] <= reach]
+                    if low and draw(st.integers(0, 4)):
+                        j = draw(st.sampled_from(low))
+                        base, hole = wins[j][0] + draw(st.sampled_from([0, 4, 8, wins[j][1] - 4, wins[j][1] // 2])), False
+                    else:
+                        cand = [h for h in HOLES if h < reach and not any(_overlap((h, 0x100), w) for w in wins)]
+                        if not cand:
+                            continue
+                        base, hole = draw(st.sampled_from(cand)), True
+                    ops.append({"we": draw(st.integers(0, 1)), "badr": base, "dat": draw(st.integers(0, 0xffffff)),
+                                "sel": draw(st.sampled_from([15, 15, 3, 8, 1])), "gap": draw(st.sampled_from([0, 0, 0, 1, 2, 4])),
+                                "hold": draw(st.booleans()), "hole": hole})
+                    continue
                 hole = kind not in ("arbiter", "p2p") and draw(st.integers(0, 9 if kind != "socbus" else 4)) == 0
                 if kind == "socbus" and M == 1 and S == 1 and wins[0][0] == 0:
                     hole = False    # point-to-point by design ("no address translation"): no decoder, so no unmapped address
@@ -61,7 +78,7 @@ def st_case(tier):
                             "sel": draw(st.sampled_from([15, 15, 3, 8, 1])), "gap": draw(st.sampled_from([0, 0, 0, 1, 2, 4])),
                             "hold": draw(st.booleans()), "hole": hole})
             progs.append(ops)
-        return {"kind": kind, "ic": ic, "M": M, "S": S, "wins": [list(w) for w in wins], "register": register, "progs": progs,
+        return {"kind": kind, "ic": ic, "M": M, "S": S, "wins": [list(w) for w in wins], "register": register, "progs": progs, "narrow": narrow,
                 # data width of the bus (the region decoders turn byte windows into word-address predicates)
                 "dw": draw(st.sampled_from([32, 32, 64])),
                 # slaves that answer some requests with err - together with ack, or instead of it
@@ -93,6 +110,8 @@ def run_case(case):
     nb = dw // 8
     ash = nb.bit_length() - 1          # byte address -> word address
     masters = [wishbone.Interface(data_width=dw, adr_width=32 - ash, addressing="word") for _ in range(M)]
+    if case.get("narrow"):
+        masters[0] = wishbone.Interface(data_width=dw, adr_width=case["narrow"] + 2 - ash, addressing="word")      # fewer address lines than the others
     slaves = [wishbone.Interface(data_width=dw, adr_width=32 - ash, addressing="word") for _ in range(S)]
     regions = [SoCRegion(origin=o, size=s) for o, s in case["wins"]]
     register = case["register"] and kind in ("shared", "crossbar", "decoder")
@@ -309,6 +328,8 @@ def run_case(case):
     if any(o["hole"] for p in case["progs"] for o in p):
         cls.append("hole-access")
     cls.append("dw%d" % dw)
+    if case.get("narrow"):
+        cls.append("mixed-address-widths")
     if any(ev[4] for ev in events):
         cls.append("err-terminated" + (":err-only" if case.get("err_only") else ":with-ack"))
     return ok(nt=nt, cls=cls, cycles=cyc)
